@@ -367,6 +367,72 @@ def load_obligations(prop):
     importlib.import_module(f"obligations.{prop}")
 
 
+def _child(conn, prop, idx, seed):
+    try:
+        conn.send(_worker((prop, idx, seed)))
+    finally:
+        conn.close()
+
+
+def _killed_result(o, why):
+    return dict(id=o.id, prop=o.prop, status="inconclusive", reasons=[why], gating=o.gating, bounds=o.bounds,
+                params=_jsonable(o.params), paths=0, decisions=0, aborted=0, flips={}, goals=0, goals_trivial=0,
+                goal_cells=0, rungs={}, solver_queries=0, solver_s=0.0, validated=0, validation_samples=0,
+                val_errors=[], failures=[], functions=[], wall_s=0.0, sample_pc=None, inputs=0, generic=o.generic,
+                expect_fail=o.expect_fail)
+
+
+def run_pool(prop, idxs, seed, jobs, verbose=False):
+    """one forked process per obligation, at most `jobs` at a time, each under a hard deadline
+    (a solver call that ignores its resource limit must not hang the check)"""
+    ctx = mp.get_context("fork")
+    pending = list(idxs)
+    running = {}
+    results = []
+
+    def show(r):
+        if verbose:
+            print(f"  {r['status']:12s} {r['id']}  paths={r['paths']} goals={r['goals']} {r['wall_s']}s {r['reasons'][:1]}", flush=True)
+
+    while pending or running:
+        while pending and len(running) < max(1, jobs):
+            i = pending.pop(0)
+            o = REGISTRY[prop][i]
+            parent, child = ctx.Pipe(duplex=False)
+            pr = ctx.Process(target=_child, args=(child, prop, i, seed))
+            pr.start()
+            child.close()
+            running[i] = (pr, parent, time.time() + o.wall_s * 1.25 + 120, o)
+        done = []
+        for i, (pr, conn, deadline, o) in running.items():
+            if conn.poll(0.02):
+                try:
+                    r = conn.recv()
+                except EOFError:
+                    r = _killed_result(o, "worker died without a result")
+                results.append(r)
+                show(r)
+                pr.join(5)
+                done.append(i)
+            elif not pr.is_alive():
+                r = _killed_result(o, f"worker exited with code {pr.exitcode} without a result")
+                results.append(r)
+                show(r)
+                done.append(i)
+            elif time.time() > deadline:
+                pr.kill()
+                pr.join(5)
+                r = _killed_result(o, f"hard deadline ({int(o.wall_s * 1.25 + 120)}s) exceeded: killed")
+                results.append(r)
+                show(r)
+                done.append(i)
+        for i in done:
+            running.pop(i)
+        if not done:
+            time.sleep(0.05)
+    return results
+
+
 def main(argv=None):
     import argparse
     ap = argparse.ArgumentParser()
@@ -393,19 +459,7 @@ def main(argv=None):
     t0 = time.time()
     results = []
     import pyttb  # noqa: F401 -- import before forking
-    if a.jobs > 1 and len(obs) > 1:
-        ctx = mp.get_context("fork")
-        with ctx.Pool(min(a.jobs, len(obs)), maxtasksperchild=1) as pool:
-            for r in pool.imap_unordered(_worker, [(prop, i, seed) for i, _ in obs], chunksize=1):
-                results.append(r)
-                if a.v:
-                    print(f"  {r['status']:12s} {r['id']}  paths={r['paths']} goals={r['goals']} {r['wall_s']}s {r['reasons'][:1]}", flush=True)
-    else:
-        for i, _ in obs:
-            r = _worker((prop, i, seed))
-            results.append(r)
-            if a.v:
-                print(f"  {r['status']:12s} {r['id']}  paths={r['paths']} goals={r['goals']} {r['wall_s']}s {r['reasons'][:1]}", flush=True)
+    results = run_pool(prop, [i for i, _ in obs], seed, a.jobs, a.v)
     results.sort(key=lambda r: r["id"])
     return report(prop, a.tier, seed, results, time.time() - t0, write=not a.no_evidence and a.only is None)
 
